@@ -4,6 +4,7 @@ use std::collections::HashMap;
 use std::rc::Rc;
 
 #[derive(Debug)]
+#[cfg_attr(feature = "verif-hooks", repr(u64))] // verif hook: word-sized direct tag (layout only)
 enum LocalBindings {
     Owned(RefCell<HashMap<String, Value>>),
     Shared(Rc<HashMap<String, Value>>),
